@@ -314,6 +314,15 @@ Inductive cexec : skl -> list caction -> skl -> Prop :=
 | cexec_nil : forall s, cexec s [] s
 | cexec_snoc : forall s tr s' a, cexec s tr s' -> cguard a s' -> cexec s (tr ++ [a]) (capply a s').
 
+(* a forward iteration whose loads happen at arbitrary later moments of a concurrent execution:
+   from node p (head = before the first entry), each step lets the writers run, then loads the
+   level-0 successor (Iterator.Next / SeekToFirst) in the state reached *)
+Inductive reader_fwd : skl -> nat -> list nat -> skl -> Prop :=
+| rf_done : forall s p, reader_fwd s p [] s
+| rf_step : forall s p tr s1 n rest s2,
+    cexec s tr s1 -> get_next s1 p 0 = n -> n <> 0 ->
+    reader_fwd s1 n rest s2 -> reader_fwd s p (n :: rest) s2.
+
 (* the abstract effect of an action on the content: the linearization points *)
 Definition cabs (a : caction) (s : skl) (m : list (K * V)) : list (K * V) :=
   match a with
